@@ -212,7 +212,14 @@ def dateparse(val: str, t: type[DateTimeT]) -> DateTimeT:
     """
     try:
         # When `exact=False`, the only two possibilities are DateTime and Duration.
-        parsed: pendulum.DateTime | pendulum.Duration = pendulum.parse(val)  # type: ignore[assignment]
+        # The ISO parser knows no signed durations: carry the sign of `-P...` ourselves.
+        negative = val.startswith("-P")
+        parsed: pendulum.DateTime | pendulum.Duration = pendulum.parse(  # type: ignore[assignment]
+            val[1:] if negative else val
+        )
+        if negative:
+            # timedelta arithmetic is exact; the result is a plain timedelta.
+            parsed = datetime.timedelta(0) - parsed  # type: ignore[assignment,operator]
         normalized = _nomalize_dt(val=val, parsed=parsed, td=t)
         return normalized
     except ValueError:
